@@ -318,3 +318,7 @@ PROPS["C14"]["level_text"] = ("Deductive (unbounded), re-indexing segment of pre
 PROPS["C14"]["explanation"] = PROPS["C14"]["level_text"]
 
 PROPS["C06"]["structural"] = [st("ngram_vectorizer.py", "NgramVectorizer.__add__", "no-alias-mutation")]
+
+_NGK = "vectorizers/ngram_token_cooccurence_vectorizer.py::numba_build_skip_grams"
+for _p in ("C03", "C04", "C10"):
+    PROPS[_p]["functions"] += [_NGK]
